@@ -5,6 +5,12 @@ import CookModel.Lemmas.Roundtrip
 import CookModel.Lemmas.RoundtripQty
 import CookModel.Lemmas.RoundtripComp
 import CookModel.Lemmas.RoundtripStep
+import CookModel.Lemmas.RoundtripTimer
+import CookModel.Lemmas.RoundtripShort
+import CookModel.Lemmas.RoundtripInter
+import CookModel.Lemmas.RoundtripStepX
+import CookModel.Lemmas.RoundtripBlock
+import CookModel.Lemmas.RoundtripInput
 /-
   C01  Printing a recipe as Cooklang and parsing it returns that recipe.
 
@@ -419,5 +425,315 @@ example : segsOK toyCharSpec C01_allExt C01_exStep = true := by decide
 /-- two touching text runs, or `(` right after a component without note, are rejected -/
 example : segsOK toyCharSpec C01_allExt [.text [tk .word ['a']], .text [tk .ws [' ']]] = false := by decide
 example : segsOK toyCharSpec C01_allExt [.cookware C01_exPot {}, .text [tk .openParen ['(']]] = false := by decide
+
+/-! ### timers -/
+
+/-- A timer spelled `~ name { quantity % unit }` — named (`~rest{10%min}`), unnamed (`~{10%min}`)
+    or without quantity (`~rest{}`), multi-word name, any value of the value layer with its
+    unit, blanks after the name and inside the braces as for ingredients (`CPad`) — standing
+    anywhere in a block and not followed by `(`, is parsed by `timer()` to `some (timer …)`: the
+    name text trims to the intended string (no name written: `none`), the quantity is the intended
+    value / lock / unit (`QtyMatches`); the span runs from before `~` to the end of `}`; the cursor
+    is left exactly after the component; the final state differs from the initial one in the
+    cursor only: NO diagnostic is pushed (none of the five timer errors, no misplaced-note
+    warning), no panic.  Holds under every extension set satisfying `ATimer.wf` (decidable; the
+    clauses are necessary, examples below). -/
+theorem C01_timer_roundtrip {α : Type} [Arith α] (c : ATimer) (p : CPad) (s : BP α)
+    (hwf : c.wf s.cs s.ext = true) (hp : p.ok s.cs = true)
+    (A ts rest : List Tok) (hs : Spells ts (spellTimer c p)) (ht : s.toks = A ++ (ts ++ rest))
+    (hc : s.cur = A.length) (hrest : noParenNext rest = true) (hrun : RunAt (baseOff s.toks) s.toks) :
+    ∃ tmr : PTimer α,
+      timerP s = (some (.timer ⟨tmr, ⟨offAt s.toks A.length, offAt s.toks (A.length + ts.length)⟩⟩),
+        { s with cur := A.length + ts.length }) ∧ TimerMatches s.cs c tmr :=
+  rt_timerP c p s hwf hp A ts rest hs ht hc hrest hrun
+
+/-! examples: `~soft boil {= 1 1 / 2 % fl oz }`, `~{10%min}`, `~rest{}`; the clauses of `ATimer.wf` -/
+def C01_exTimer : ATimer :=
+  { name := some [tk .word "soft".toList, tk .ws [' '], tk .word "boil".toList], qty := some C01_exQty }
+def C01_exTimerAnon : ATimer :=
+  { qty := some { val := .num (.int ['1', '0']), unit := some [tk .word "min".toList] } }
+def C01_exTimerRest : ATimer := { name := some [tk .word "rest".toList] }
+def C01_timerExt : Ext := ⟨C01_allExt.bits ||| Gen.EXT_TIMER_REQUIRES_TIME⟩
+
+example : C01_exTimer.wf toyCharSpec C01_timerExt = true ∧ C01_exTimerAnon.wf toyCharSpec C01_timerExt = true ∧
+    C01_exTimerRest.wf toyCharSpec C01_allExt = true := by decide
+/-- necessary clauses: no quantity under TIMER_REQUIRES_TIME, a quantity without unit, neither name
+    nor quantity, a name starting with a modifier character under MODIFIERS, `|` under ALIAS are
+    all errors of the timer parser -/
+example : C01_exTimerRest.wf toyCharSpec C01_timerExt = false := by decide
+example : ({ qty := some { val := .num (.int ['5']) } } : ATimer).wf toyCharSpec ⟨0⟩ = false := by decide
+example : ({} : ATimer).wf toyCharSpec ⟨0⟩ = false := by decide
+example : ({ name := some [tk .minus ['-'], tk .word ['x']] } : ATimer).wf toyCharSpec C01_allExt = false := by decide
+example : ({ name := some [tk .word ['a'], tk .or ['|'], tk .word ['b']] } : ATimer).wf toyCharSpec C01_allExt = false := by
+  decide
+def C01_t5 : List Tok := [⟨.tilde, ['~'], 0⟩, ⟨.openBrace, ['{'], 1⟩, ⟨.int, ['5'], 2⟩, ⟨.closeBrace, ['}'], 3⟩]
+example : ((timerP (α := Rat) ⟨C01_t5, 0, ⟨0⟩, toyCharSpec, #[], none⟩).2.evs.toList.map
+    (fun e => match e with | .error d => d.kind | _ => "")) = ["timer-missing-unit"] := by decide
+
+/-! ### single-word components -/
+
+/-- An ingredient written without braces, `@ modifiers word [(note)]` — the name a run of word /
+    integer tokens without blanks (`salt`, `1st`), modifier characters as in the braces form,
+    optional note — standing anywhere in a block, is parsed by `ingredient()` to the ingredient
+    with that name, those modifier flags, that note, no alias, no quantity, no intermediate
+    reference; span from before `@` to the end of the word (or of the note); cursor exactly
+    after it; the state otherwise untouched: NO diagnostic, no panic.
+    `shortRestOK` is the condition on what follows, and it is necessary (examples below): the
+    next token is not a further word / integer and not `(` (unless a note was written), and no
+    `{` comes before the next `@ # ~` in the rest of the block — the parser first tries the
+    braces form with a name running across blanks, words and line ends up to the next `{`. -/
+theorem C01_single_word_roundtrip {α : Type} [Arith α] (c : AComp) (s : BP α)
+    (hwf : c.wfShort s.cs s.ext = true)
+    (A ts rest : List Tok) (hs : Spells ts (spellShortIngredient c)) (ht : s.toks = A ++ (ts ++ rest))
+    (hc : s.cur = A.length) (hrest : shortRestOK c rest = true) (hrun : RunAt (baseOff s.toks) s.toks) :
+    ∃ ing : PIngredient α,
+      ingredientP s = (some (.ingredient ⟨ing, ⟨offAt s.toks A.length, offAt s.toks (A.length + ts.length)⟩⟩),
+        { s with cur := A.length + ts.length }) ∧ IngrMatches s.cs c ing :=
+  rt_ingredientP_short c s hwf A ts rest hs ht hc hrest hrun
+
+/-- The same for cookware `# modifiers word [(note)]` (no `@` among the modifiers). -/
+theorem C01_single_word_roundtrip_cookware {α : Type} [Arith α] (c : AComp) (s : BP α)
+    (hwf : c.wfShortCookware s.cs s.ext = true)
+    (A ts rest : List Tok) (hs : Spells ts (spellShortCookware c)) (ht : s.toks = A ++ (ts ++ rest))
+    (hc : s.cur = A.length) (hrest : shortRestOK c rest = true) (hrun : RunAt (baseOff s.toks) s.toks) :
+    ∃ cw : PCookware α,
+      cookwareP s = (some (.cookware ⟨cw, ⟨offAt s.toks A.length, offAt s.toks (A.length + ts.length)⟩⟩),
+        { s with cur := A.length + ts.length }) ∧ CwMatches s.cs c cw :=
+  rt_cookwareP_short c s hwf A ts rest hs ht hc hrest hrun
+
+/-! examples: `@&-1st(fine)` followed by ` and #pan.`; `@salt` followed by ` and {x}` is rejected, and
+    indeed the parser reads the ingredient `salt and` there -/
+def C01_exShort : AComp :=
+  { mods := [.and, .minus], name := [tk .int ['1'], tk .word ['s', 't']], note := some [tk .word "fine".toList] }
+def C01_exSalt : AComp := { name := [tk .word "salt".toList] }
+example : C01_exShort.wfShort toyCharSpec C01_allExt = true ∧ C01_exSalt.wfShortCookware toyCharSpec ⟨0⟩ = true := by
+  decide
+example : shortRestOK C01_exShort [tk .ws [' '], tk .word "and".toList, tk .ws [' '], tk .hash ['#'],
+    tk .word "pan".toList, tk .openBrace ['{'], tk .closeBrace ['}']] = true := by decide
+example : shortRestOK C01_exSalt [tk .ws [' '], tk .word "and".toList, tk .ws [' '], tk .openBrace ['{'],
+    tk .word ['x'], tk .closeBrace ['}']] = false := by decide
+example : shortRestOK C01_exSalt [tk .word ['x']] = false ∧ shortRestOK C01_exSalt [tk .openParen ['(']] = false ∧
+    shortRestOK C01_exSalt [tk .dot ['.']] = true ∧ shortRestOK C01_exSalt [] = true := by decide
+def C01_saltAnd : List Tok := [⟨.at, ['@'], 0⟩, ⟨.word, "salt".toList, 1⟩, ⟨.ws, [' '], 5⟩, ⟨.word, "and".toList, 6⟩,
+  ⟨.ws, [' '], 9⟩, ⟨.openBrace, ['{'], 10⟩, ⟨.word, ['x'], 11⟩, ⟨.closeBrace, ['}'], 12⟩]
+example : (match (ingredientP (α := Rat) ⟨C01_saltAnd, 0, ⟨0⟩, toyCharSpec, #[], none⟩).1 with
+    | some (.ingredient i) => i.val.name.text == "salt and ".toList
+    | _ => false) = true := by decide
+/-- a name with a blank or a non-word token is not a single word -/
+example : ({ name := [tk .word ['a'], tk .ws [' '], tk .word ['b']] } : AComp).wfShort toyCharSpec ⟨0⟩ = false := by decide
+
+/-! ### modifiers and intermediate references -/
+
+/-- Plain modifiers (`@&name{}`, `@-name{}`, `@?name{}`, `@+name{}`, `@@name{}` and any combination
+    without repetition) are part of `C01_component_roundtrip` / `C01_single_word_roundtrip`
+    (`AComp.mods`).  This theorem adds the intermediate reference (INTERMEDIATE_PREPARATIONS):
+    an ingredient spelled `@ pre & ( [=] [~] n ) post name … { … } (note)` — the four documented
+    forms `(n)`, `(~n)`, `(=n)`, `(=~n)`, blanks anywhere inside the parentheses (`IPad`), other
+    modifier characters before the `&` and after the `)`, the rest as in the component layer — is
+    parsed by `ingredient()` to the ingredient with the flags of `pre & post`, the intermediate
+    data `{relative, section, n}` (`AInter.denote`) and the name / alias / note / quantity of the
+    component layer; span, cursor and "no diagnostic, no panic" as there.
+    `wfInter`: both extensions on, distinct modifier characters, `n ≤ 32767` (`i16`). -/
+theorem C01_intermediate_ref_roundtrip {α : Type} [Arith α] (pre post : List TK) (i : AInter) (ip : IPad)
+    (c : AComp) (p : CPad) (s : BP α)
+    (hwf : wfInter s.cs s.ext pre post i c = true) (hip : ip.ok s.cs = true) (hp : p.ok s.cs = true)
+    (A ts rest : List Tok) (hs : Spells ts (spellIngredientI pre post i ip c p)) (ht : s.toks = A ++ (ts ++ rest))
+    (hc : s.cur = A.length) (hrest : restOK c rest = true) (hrun : RunAt (baseOff s.toks) s.toks) :
+    ∃ ing : PIngredient α,
+      ingredientP s = (some (.ingredient ⟨ing, ⟨offAt s.toks A.length, offAt s.toks (A.length + ts.length)⟩⟩),
+        { s with cur := A.length + ts.length }) ∧ IngrMatchesI s.cs (pre ++ .and :: post) i c ing :=
+  rt_ingredientP_inter pre post i ip c p s hwf hip hp A ts rest hs ht hc hrest hrun
+
+/-! examples: `@-&( = ~ 2 )?dough{}`; `40000` does not fit `i16`; without the extension the spelling
+    is not read as a reference -/
+def C01_exInter : AInter := { relative := true, isSection := true, digits := ['2'] }
+def C01_exIPad : IPad := { b0 := [tk .ws [' ']], b1 := [tk .ws [' ']], b2 := [tk .ws [' ']], b3 := [tk .ws [' ']] }
+example : wfInter toyCharSpec C01_allExt [.minus] [.question] C01_exInter { name := [tk .word "dough".toList] } = true ∧
+    C01_exIPad.ok toyCharSpec = true := by decide
+example : (C01_exInter.denote) = ⟨true, true, 2⟩ := by decide
+example : wfInter toyCharSpec C01_allExt [] [] { digits := "40000".toList } { name := [tk .word ['x']] } = false := by decide
+example : wfInter toyCharSpec ⟨Gen.EXT_COMPONENT_MODIFIERS⟩ [] [] { digits := ['1'] } { name := [tk .word ['x']] } = false := by
+  decide
+example : wfInter toyCharSpec C01_allExt [.and] [] { digits := ['1'] } { name := [tk .word ['x']] } = false := by decide
+
+/-! ### the step layer with every component form -/
+
+/-- Step composition over all segment families (`SegX`): text runs, ingredients and cookware in
+    braces form and in single-word form, timers, ingredients with an intermediate reference.  Under `segsXOK` (each segment satisfies the
+    side conditions of its layer; two text runs do not touch; what follows a component is as its
+    layer requires: `restOK`, `noParenNext`, `shortRestOK`) `parse_step` emits `start step`, exactly
+    one event per segment in order (`SegsXEvs`: the text of a run is its visible characters, a
+    component event matches the intended component) and `stop step`, and NOTHING else — no error,
+    no warning, no panic — with the cursor at the end of the block.  This discharges the `partial`
+    of `C01_step_compose_partial`: every component form of the component layer is a segment. -/
+theorem C01_step_compose {α : Type} [Arith α] (segs : List SegX) (s : BP α) (ts : List Tok)
+    (hs : Spells ts (segs.flatMap SegX.spell)) (ht : s.toks = ts) (hc : s.cur = 0)
+    (hrun : RunAt (baseOff ts) ts) (hok : segsXOK s.cs s.ext segs = true) :
+    ∃ (evs : List (Ev α)) (arr : Array (Ev α)),
+      parseStep s = ((), { s with cur := ts.length, evs := arr }) ∧
+      arr.toList = s.evs.toList ++ [.start .step] ++ evs ++ [.stop .step] ∧ SegsXEvs s.cs segs evs :=
+  rt_parseStepX segs s ts hs ht hc hrun hok
+
+/-- example: `Boil @water{= 1 1 / 2 % fl oz } with @salt, ~soft boil {…} in #pot.` -/
+def C01_exStepX : List SegX :=
+  [.text [tk .word "Boil".toList, tk .ws [' ']],
+   .ingredient { name := [tk .word "water".toList], qty := some C01_exQty } C01_exCPad,
+   .text [tk .ws [' '], tk .word "with".toList, tk .ws [' ']],
+   .ingredient1 C01_exSalt,
+   .text [tk .punct [','], tk .ws [' ']],
+   .timer C01_exTimer C01_exCPad,
+   .text [tk .ws [' '], tk .word "in".toList, tk .ws [' ']],
+   .cookware1 { name := [tk .word "pot".toList] },
+   .text [tk .dot ['.'], tk .newline ['\n']],
+   .ingredientI [.minus] [.question] C01_exInter C01_exIPad { name := [tk .word "dough".toList] } {},
+   .text [tk .dot ['.']]]
+example : segsXOK toyCharSpec C01_timerExt C01_exStepX = true := by decide
+/-- a single-word component followed (anywhere before the next marker) by `{` is rejected -/
+example : segsXOK toyCharSpec C01_allExt [.ingredient1 C01_exSalt,
+    .text [tk .ws [' '], tk .openBrace ['{'], tk .closeBrace ['}']]] = false := by decide
+
+/-! ### the block layer: one block through `parse_block` -/
+
+/-- A step block.  The tokens of one block (as the splitter hands them to `BlockParser::new`)
+    that spell a segment list as above, do not start with `>>`, `=` or `>` and are not all blank
+    (`stepBlockOK`), are parsed by `parse_block` + `finish` (`runBlock`), under either metadata
+    style, to `start step`, one event per segment, `stop step` appended to the event queue;
+    nothing else is emitted, the panic flag is untouched (in particular the `finish` assertion
+    "Block tokens not parsed" holds). -/
+theorem C01_block_step {α : Type} [Arith α] (segs : List SegX) (cs : CharSpec) (ext : Ext) (oldStyle : Bool)
+    (ts : List Tok) (evs0 : Array (Ev α)) (panic : Option String)
+    (hs : Spells ts (segs.flatMap SegX.spell)) (hrun : RunAt (baseOff ts) ts)
+    (hok : segsXOK cs ext segs = true) (hb : stepBlockOK ts = true) :
+    ∃ (evs : List (Ev α)) (arr : Array (Ev α)),
+      runBlock cs ext oldStyle ts evs0 panic = (arr, panic) ∧
+      arr.toList = evs0.toList ++ [.start .step] ++ evs ++ [.stop .step] ∧ SegsXEvs cs segs evs :=
+  rtb_runBlock_step segs cs ext oldStyle ts evs0 panic hs hrun hok hb
+
+/-- A section line `== name ==`: one or more `=`, blanks, the name (a leaf without `=`; or no name),
+    blanks, any number of closing `=`, blanks (`spellSection`, `sectionOK`) is parsed by
+    `parse_block` to exactly one event `section name'` where `name'` trims to the intended name
+    (`none` for an unnamed section); no warning, no panic. -/
+theorem C01_block_section {α : Type} [Arith α] (name : Option (List Tok)) (p : SPad) (cs : CharSpec) (ext : Ext)
+    (oldStyle : Bool) (ts : List Tok) (evs0 : Array (Ev α)) (panic : Option String)
+    (hok : sectionOK cs name p = true) (hs : Spells ts (spellSection name p)) (hrun : RunAt (baseOff ts) ts) :
+    ∃ ev : Ev α, runBlock cs ext oldStyle ts evs0 panic = (evs0.push ev, panic) ∧ SectionMatches cs name ev :=
+  rtb_runBlock_section name p cs ext oldStyle ts evs0 panic hok hs hrun
+
+/-- A metadata line `>> key : value` (key a leaf without `:`, value any leaf, blanks around
+    both; `spellMeta`, `metaOK`) in a recipe without front matter (`old_style_metadata = true`) is
+    parsed by `parse_block` to exactly one event `metadata key' value'` whose texts trim to the
+    intended key and value; no error (empty key), no warning (empty value / invalid entry), no
+    panic.  (With front matter `>>` lines are steps, by design of the parser.) -/
+theorem C01_block_metadata {α : Type} [Arith α] (key value : List Tok) (p : MPad) (cs : CharSpec) (ext : Ext)
+    (ts : List Tok) (evs0 : Array (Ev α)) (panic : Option String) (hok : metaOK cs key value p = true)
+    (hs : Spells ts (spellMeta key value p)) (hrun : RunAt (baseOff ts) ts) :
+    ∃ ev : Ev α, runBlock cs ext true ts evs0 panic = (evs0.push ev, panic) ∧ MetaMatches cs key value ev :=
+  rtb_runBlock_meta key value p cs ext ts evs0 panic hok hs hrun
+
+/-! examples: `== Main course ==`, `=====`, `>> prep time: 1 h 30 min`; a section name with `=`, a key
+    with `:` are rejected -/
+def C01_exSPad : SPad := { n0 := 1, n1 := 2, a := [tk .ws [' ']], b := [tk .ws [' ']], c := [tk .ws [' ']] }
+example : sectionOK toyCharSpec (some [tk .word "Main".toList, tk .ws [' '], tk .word "course".toList]) C01_exSPad = true := by
+  decide
+example : sectionOK toyCharSpec none { n0 := 4 } = true ∧ sectionOK toyCharSpec none { n0 := 1, n1 := 2 } = false := by decide
+example : sectionOK toyCharSpec (some [tk .word ['a'], tk .eq ['='], tk .word ['b']]) {} = false := by decide
+example : metaOK toyCharSpec [tk .word "prep".toList, tk .ws [' '], tk .word "time".toList]
+    [tk .int ['1'], tk .ws [' '], tk .word ['h'], tk .ws [' '], tk .int ['3', '0'], tk .ws [' '], tk .word "min".toList]
+    { a := [tk .ws [' ']], c := [tk .ws [' ']] } = true := by decide
+example : metaOK toyCharSpec [tk .word ['a'], tk .colon [':'], tk .word ['b']] [tk .word ['v']] {} = false := by decide
+example : stepBlockOK (C01_exStepX.flatMap SegX.spell) = true := by decide
+
+/-! ### from the printed characters to the events -/
+
+/-- The link between the printer's characters and every theorem above: if the printed token list
+    `spec` is well spelled (`C01_lex_render`), the tokens `lexFrom off (render spec)` the lexer
+    produces from its characters spell `spec` (same kinds, same texts) and are a run of adjacent
+    tokens with well-formed escapes — exactly the hypotheses `Spells ts spec` and `RunAt …` of the
+    value, quantity, component, step and block theorems. -/
+theorem C01_lex_spells (cs : CharSpec) (off : Nat) (spec : List Tok) (h : WellSpelled cs spec) :
+    Spells (lexFrom cs off (render spec)) spec ∧ RunAt off (lexFrom cs off (render spec)) :=
+  rtin_lex_spells cs off spec h
+
+/-- A whole input that is one line: for a well-spelled token list without newline token that is
+    not all blank, printed as `render spec`, when the text has no front-matter fence, `PullParser`
+    (`pullEvents`) is `parse_block` run once on the lexer's tokens, which spell `spec` and are a
+    run.  With `C01_block_step` / `C01_block_section` / `C01_block_metadata` this gives the events
+    of a one-line recipe from its characters. -/
+theorem C01_input_single_block {α : Type} [Arith α] (cs : CharSpec) (ext : Ext) (spec : List Tok)
+    (h : WellSpelled cs spec) (hnl : ∀ u ∈ spec, u.kind ≠ .newline)
+    (hnb : spec.any (fun u => !isEmptyTok u.kind) = true) (hfm : parseFrontmatter cs (render spec) = none) :
+    pullEvents (α := α) cs ext (render spec) = runBlock cs ext true (lex cs (render spec)) #[] none ∧
+    Spells (lex cs (render spec)) spec ∧ RunAt (baseOff (lex cs (render spec))) (lex cs (render spec)) := by
+  obtain ⟨hsp, hrun⟩ := rtin_lex_spells cs 0 spec h
+  refine ⟨?_, hsp, hrun.base⟩
+  apply rtin_pullEvents_single cs ext _ hfm
+  · intro t ht
+    obtain ⟨u, hu, hk, -⟩ := hsp.mem ht
+    rw [hk]; exact hnl u hu
+  · rw [Bool.eq_false_iff]
+    intro hall
+    rw [List.any_eq_true] at hnb
+    obtain ⟨u, hu, hk⟩ := hnb
+    obtain ⟨t, ht, hkt, -⟩ := hsp.mem' hu
+    rw [List.all_eq_true] at hall
+    have := hall t ht
+    rw [hkt] at this; rw [this] at hk; cases hk
+
+/-- End to end for a one-line step: the characters `render (segs.flatMap SegX.spell)` of a segment
+    list satisfying `segsXOK`, well spelled (adjacent tokens do not fuse), without newline token,
+    starting a step (`stepBlockOK`), in a text without front-matter fence, are parsed by the whole
+    pull parser — lexer, block splitter, `parse_block` — to exactly `start step`, one event per
+    segment (text with the visible characters, components matching the intended ones), `stop step`:
+    no diagnostic, no panic.
+    Partial: one block on one line; multi-line steps, several blocks and the analysis pass are
+    covered by the splitter theorems of C05/C04 and by testing only. -/
+theorem C01_input_step_line_partial {α : Type} [Arith α] (cs : CharSpec) (ext : Ext) (segs : List SegX)
+    (hok : segsXOK cs ext segs = true) (h : WellSpelled cs (segs.flatMap SegX.spell))
+    (hnl : ∀ u ∈ segs.flatMap SegX.spell, u.kind ≠ .newline) (hb : stepBlockOK (segs.flatMap SegX.spell) = true)
+    (hfm : parseFrontmatter cs (render (segs.flatMap SegX.spell)) = none) :
+    ∃ (evs : List (Ev α)) (arr : Array (Ev α)),
+      pullEvents (α := α) cs ext (render (segs.flatMap SegX.spell)) = (arr, none) ∧
+      arr.toList = [.start .step] ++ evs ++ [.stop .step] ∧ SegsXEvs cs segs evs := by
+  have hb' := hb
+  simp only [stepBlockOK, Bool.and_eq_true] at hb'
+  obtain ⟨hpe, hsp, hrun⟩ := C01_input_single_block (α := α) cs ext _ h hnl hb'.2 hfm
+  obtain ⟨evs, arr, hrb, harr, hall⟩ := rtb_runBlock_step (α := α) segs cs ext true _ #[] none hsp hrun hok
+    (stepBlockOK_transfer hsp hb)
+  exact ⟨evs, arr, by rw [hpe, hrb], by simpa using harr, hall⟩
+
+/-- example: the one-line step `Boil @water{…} with @salt, ~soft boil {…} in #pot.` -/
+def C01_exLine : List SegX := C01_exStepX.take 8 ++ [.text [tk .dot ['.']]]
+example : segsXOK toyCharSpec C01_timerExt C01_exLine = true ∧ WellSpelled toyCharSpec (C01_exLine.flatMap SegX.spell) ∧
+    stepBlockOK (C01_exLine.flatMap SegX.spell) = true ∧
+    (C01_exLine.flatMap SegX.spell).all (fun u => u.kind != .newline) = true := by decide
+example : (parseFrontmatter toyCharSpec (render (C01_exLine.flatMap SegX.spell))).isNone = true := by decide
+
+/-! ### well-spelledness of concatenated spellings -/
+
+/-- `WellSpelled` (the hypothesis of `C01_lex_render` / `C01_lex_spells`) is compositional: a
+    concatenation `a ++ b` is well spelled iff `b` is and `a` is well spelled when followed by the
+    first character of `b` (`wellSpelledNext`, decidable: the same token-by-token test with the
+    look-ahead taken from `b` at the end of `a`).  So the spelling of a step can be checked segment
+    by segment, each with the first character of the next segment; followed by nothing
+    (`none`) it is `WellSpelled` itself.
+    Partial (goal "printer output is well spelled"): the leaf tokens of the spellings (names,
+    units, notes, text runs) are arguments, so well-spelledness of a spelled component is a
+    condition on them and on the characters at the seams; no closed-form sufficient condition per
+    leaf family is proved here (the examples decide it on concrete spellings). -/
+theorem C01_well_spelled_append_partial (cs : CharSpec) (a b : List Tok) :
+    WellSpelled cs (a ++ b) ↔ (wellSpelledNext cs (render b).head? a = true ∧ WellSpelled cs b) := by
+  unfold WellSpelled
+  rw [rtin_wellSpelled_append, Bool.and_eq_true]
+
+/-- … and a list that is well spelled when followed by nothing is `WellSpelled` (the last segment
+    of a printed text). -/
+theorem C01_well_spelled_next_none (cs : CharSpec) (a : List Tok) :
+    wellSpelledNext cs none a = true ↔ WellSpelled cs a := by
+  unfold WellSpelled
+  rw [rtin_wellSpelledNext_none]
+
+/-- example: `@salt` is well spelled before `,` but not before `y` (the word would go on) -/
+example : wellSpelledNext toyCharSpec (some ',') (spellShortIngredient C01_exSalt) = true ∧
+    wellSpelledNext toyCharSpec (some 'y') (spellShortIngredient C01_exSalt) = false := by decide
 
 end Cook
